@@ -9,6 +9,8 @@ CONSTANTS
   TearDown = FALSE
   ReHandshakes = 0
   IgnoreReHandshakeWhileOpen = FALSE
+  SplitTicks = FALSE
+  NegativeElapsedIsDue = FALSE
 INVARIANTS C39_SameKeyWhileOpen
 VIEW View
 CONSTRAINT Bound
